@@ -6,7 +6,7 @@ from .. import gen, refs, configs, scriptrun as sr, osmt
 from ..core import Campaign, CaseResult, Violation, h
 from ..terms import T, mkvar
 
-N_QUICK = {"C04": 300, "C05": 220, "C29": 500, "C30": 260}
+N_QUICK = {"C04": 900, "C05": 400, "C29": 600, "C30": 260}
 N_THOROUGH = {"C04": 12000, "C05": 6000, "C29": 20000, "C30": 6000}
 
 
@@ -47,10 +47,20 @@ def c04_build(seed):
     if g.logic not in gen.MODEL_LOGICS:
         options = [o for o in options if o[0] != ":produce-models"]
     cmds = g.header(options)
-    hist = g.history(rng.randint(15, 45), p={"reassert": 0.3, "check": 0.25, "pop": 0.15},
+    hist = g.history(rng.randint(15, 45), p={"reassert": 0.4, "check": 0.28, "pop": 0.17, "push": 0.17},
                      query_fn=query_fn_for(options),
                      name_p=0.6 if configs.has(options, ":produce-interpolants") or configs.has(options, ":produce-unsat-cores") else 0.1)
-    return cmds + hist
+    # planted contradictions make more of the checks unsat (a lost or stale clause then changes an answer)
+    out = []
+    asserted = []
+    from ..terms import strip_named
+    for c in hist:
+        out.append(c)
+        if c["k"] == "assert":
+            asserted.append(strip_named(c["term"]))
+            if rng.random() < 0.12:
+                out.append({"k": "assert", "term": T("not", (rng.choice(asserted),))})
+    return cmds + out
 
 
 def fresh_script(cmds, model):
